@@ -86,6 +86,14 @@ class Witness(BaseNode):
         self.idx = int(idx)
         self.trace = trace  # "io" (ordered io_callback), "none"
         self.hash_ts = hash_ts
+        self.delay_overrides = None  # {input_name: delay} returned by init_delays (C10: set a trainable delay through init_delays)
+
+    def init_delays(self, rng=None, graph_state=None):
+        d = super().init_delays(rng, graph_state)
+        if self.delay_overrides:
+            d = dict(d)
+            d.update(self.delay_overrides)
+        return d
 
     def init_params(self, rng=None, graph_state=None):
         # seed-dependent on purpose (so that "which params did the steps see" is observable); harnesses that need a fixed
